@@ -1,3 +1,4 @@
+//go:debug randseednop=0
 package main
 
 import (
